@@ -121,7 +121,11 @@ def check(run):
             s = prog.summarise(cls, method)
             fq = f"{cls.name}.{method}"
             run.analysed_fn(fq)
-            ps = paths(s.events, unroll=2)
+            try:
+                ps = paths(s.events, unroll=2)
+            except ir.Unsupported as e:         # nested explicit loops: the fixpoint dataflow below decides alone
+                ps = []
+                run.notes.setdefault("path_enumeration_skipped", []).append(f"{fq}: {e}")
             run.analysed["paths"] += len(ps)
             found = {}
             fall_sites = set()
@@ -136,13 +140,14 @@ def check(run):
                             found.setdefault(key, (committed, ev))
                     elif k == "commit" and committed is None:
                         committed = ev
+            fall_sites |= {id(e) for e, _ in walk(s.events) if classify(e, est, cb, mutators) == "fallible"}
             # fixpoint dataflow over the effect tree (all loop iteration counts); must agree with the paths
             for committed, ev in order_dataflow(s.events, lambda e: classify(e, est, cb, mutators)):
                 found.setdefault((id(committed), id(ev)), (committed, ev))
             n_fallible += len(fall_sites)
             run.analysed["call_sites"] += len(fall_sites)
             if not found:
-                run.ok("ORDER", fq, f"{len(ps)} paths, {len(fall_sites)} fallible call sites, no commit precedes any")
+                run.ok("ORDER", fq, f"{len(ps)} paths + fixpoint dataflow, {len(fall_sites)} fallible call sites, no commit precedes any")
             for committed, ev in found.values():
                 construct = f"commit {run.stmt_text(s.path, committed.line) or describe(committed)} precedes " \
                             f"{describe(ev)}"
